@@ -15,9 +15,25 @@
 //	    only are skipped: the tree reports them as EMPTY document (code 203, no position), which the property's
 //	    position clause does not cover.
 //	C17-schema-pos    (schemapos.go) schema texts (root or added type) with a stray byte at a token boundary of
-//	    the example part, truncated, with an unknown rule name, or with an example that breaks its own rule.
+//	    the example part, truncated, with an unknown rule name, with an example that breaks its own rule, or with
+//	    ONE compile-phase defect on a fresh node (allOf errors of every kind, rules that cannot be used on the node,
+//	    undefined / wrongly typed references in shortcuts, type / or / additionalProperties rules and key
+//	    shortcuts, contradictory bounds, duplicate keys, duplicate rules, unusable rule values). Every case runs
+//	    under distinct file names through Check() AND under another naming (all names empty, root name empty, type
+//	    names empty, one shared name) through Check() / Validate() / Example(): the first non-nil error must be a
+//	    positioned library error (errors.DocumentError) at the generator-known offset, naming the victim's file,
+//	    with Line() / SourceSubString() / caret of that offset by the independent reference; and the same error code
+//	    under both namings (C17-schema-names).
+//	C17-lex-pos       (lexpos.go) ONE lexical error planted INSIDE a token (first byte / middle / last byte) of an
+//	    accepted schema (every token kind, every annotation spelling, user comments, LF / CRLF / CR), enum rule, JSON
+//	    document or regex text; oracle by construction, second opinion Lean scanner models / encoding/json
+//	    (C17-lex-oracle when the two disagree); plus random one-byte edits of schema texts: scanner error vs Lean
+//	    scanner model (C17-lex-model).
 //	C17-render        (render.go) DocumentError rendering: exhaustive small files and random long files against
-//	    an independent reference of line number, shown source text and caret.
+//	    an independent reference of line number, shown source text and caret; each file also with ONE error value
+//	    moved through its positions (forwards, backwards, random jumps) and rendered after every SetIndex.
+//
+// The document / schema / rule files are created under several file names including the empty one in every stream.
 //
 // Conventions calibrated on the unchanged tree (rule-level):
 //
@@ -42,8 +58,12 @@ func Run(args []string) {
 	rep := vh.NewReport("c17-positions", "validate: schema+valid document pairs (4 non-recursive types, rules min/max/length/regex/enum/format/items, "+
 		"optional keys, nullable, references, or of scalars) with ONE planted violation at a known offset, random layout; json: valid JSON texts with "+
 		"one byte replaced/inserted/deleted or truncated, oracle = encoding/json scanner offset; schema: stray byte at a token boundary / truncation / "+
-		"unknown rule / example breaking its rule, in the root or in an added type; render: all files of <= 6 (quick) / 7 (thorough) bytes over "+
-		"{a,space,tab,LF,CR} x all positions + random files up to 600 bytes with lines around and beyond 200 bytes. "+
+		"unknown rule / example breaking its rule / one compile-phase defect (allOf errors, inapplicable rules, undefined or wrongly typed links, "+
+		"contradictory bounds, duplicate keys / rules, unusable rule values) in the root or in an added type, each case under distinct file names and under "+
+		"a second naming (all / root / type names empty, one shared name) through Check / Validate / Example; lex: one lexical error inside a token "+
+		"(first / middle / last byte; strings, numbers, literals, shortcuts, rule names; all annotation spellings) of an accepted schema / enum / JSON / regex text, "+
+		"oracle by construction + Lean scanner models / encoding/json, and random one-byte edits vs the Lean scanner model; render: all files of <= 6 (quick) / 7 (thorough) bytes over "+
+		"{a,space,tab,LF,CR} x all positions + random files up to 600 bytes with lines around and beyond 200 bytes, fresh error values and one re-used value walking through the file; file names incl. the empty one everywhere. "+
 		"nontrivial = every planted case; a render file of >= 2 bytes")
 	only := ""
 	if len(args) > 0 {
@@ -60,6 +80,9 @@ func Run(args []string) {
 	}
 	if only == "" || only == "schema" {
 		runSchemaPos(rep)
+	}
+	if only == "" || only == "lex" {
+		runLexPos(rep)
 	}
 	rep.Exhaustive = false
 	rep.Finish()
